@@ -129,6 +129,12 @@ func MergeAll(repo repository.ClockedRepo, remote string) <-chan entity.MergeRes
 // linked from another entity, otherwise it would break it.
 // Remove is idempotent.
 func Remove(repo repository.ClockedRepo, id entity.Id) error {
+	// the references are looked up with the id as a prefix of their name: anything shorter than a
+	// complete id (a prefix, the empty id) would designate, and delete, another identity
+	if err := id.Validate(); err != nil {
+		return errors.Wrap(err, "invalid id")
+	}
+
 	var fullMatches []string
 
 	refs, err := repo.ListRefs(identityRefPattern + id.String())
